@@ -1,4 +1,4 @@
 From Coq Require Extraction ExtrOcamlBasic.
-From Wz Require Import lib.Bytes lib.Utf8 lib.ExtractBase C02.Gen C02.Model.
+From Wz Require Import lib.Bytes lib.Utf8 lib.ExtractBase C02.Gen C02.Model C02.Client.
 Extraction Language OCaml.
-Extraction "C02/model_extracted.ml" force_types urlencode parse_qsl unquote quote_plus send_event encode.
+Extraction "C02/model_extracted.ml" force_types urlencode parse_qsl unquote quote_plus send_event encode stream_encode.
